@@ -83,7 +83,8 @@ PutOutcomes(t, p, r) ==
   LET k == Kind(t, p)
       R0 == (IF k = "c" THEN {405} ELSE {})
            \cup (IF ParentAbsent(t, p) THEN {409} ELSE {})
-           \cup (IF BelowFile(t, p) THEN Any4xx ELSE {})
+           \* a parent that is a regular file, or lies below one, is a missing parent COLLECTION all the same: 409
+           \cup (IF BelowFile(t, p) THEN {409} ELSE {})
            \cup CondRefusals(k, r.ifm, r.ifnm)
            \cup (IF r.fault THEN AnyFail ELSE {})
       R == IF R0 # {} /\ CondUnconstrained(k, r.ifm, r.ifnm) THEN R0 \cup Any4xx ELSE R0
